@@ -151,6 +151,29 @@ def _js(o):
     return repr(o)
 
 
+def spread2(items, key1, key2, limit):
+    """Two-level round-robin: every kind (key1, e.g. the set of differing clauses) gets the same share of `limit`, and
+    inside a kind every sub-kind (key2, e.g. declaration and code-generation setting) gets the same share."""
+    kinds = {}
+    for it in items:
+        kinds.setdefault(key1(it), []).append(it)
+    per = {k: spread(v, key2, len(v)) for k, v in kinds.items()}      # each kind ordered round-robin over its sub-kinds
+    out = []
+    order = sorted(per, key=repr)
+    i = 0
+    while len(out) < limit and order:
+        nxt = []
+        for k in order:
+            if i < len(per[k]):
+                out.append(per[k][i])
+                if len(out) >= limit:
+                    break
+                nxt.append(k)
+        order = nxt
+        i += 1
+    return out
+
+
 def spread(items, key, limit):
     """At most `limit` of `items`, taken round-robin over the groups given by `key` (so that one numerous kind of
     difference - a known deviation, say - cannot crowd every other kind out of what is judged)."""
